@@ -1,4 +1,4 @@
-CONSTANTS Keys = {"rsaA", "rsaB", "p256A", "p256B", "p384A"}  Orders = {"leafOnly", "leafFirst", "leafLast", "leafMiddle"}
+CONSTANTS Keys = {"rsaA", "rsaB", "p256A", "p256Aneg", "p256B", "p384A"}  Orders = {"leafOnly", "leafFirst", "leafLast", "leafMiddle"}
   Paths = {"jar", "ps", "appmanifest", "apk", "pkg", "pgp"}  PgpPaths = {"pgp"}  Variant = "LeafNotFirst"
 SPECIFICATION Spec
 INVARIANTS EmitImpliesMatch MismatchIsError MatchServed 
